@@ -388,7 +388,7 @@ pub fn target(t: &mut Tape, d: &Dict) -> String {
             3 => "-99:99".to_string(),
             4 => "+5:00".to_string(),
             5 => "+005:00".to_string(),
-            6 => "+24:00".to_string(),
+            6 => t.choose(&["+24:00", "+99999999999999999999:00", "+005:00", "+05:99999999999999999999", "-0000000000000000000000005:00", "+5:0", "+05:000"]).to_string(),
             _ => format!("{}{:02}:{:02}", t.choose(&["+", "-"]), t.pick(100), t.pick(100)),
         },
         8 => format!("\"{}\"", t.choose(&ZONES)),
